@@ -321,7 +321,7 @@ type archiveableDataBlock struct {
 	dataBlock
 	earliestTime     time.Time
 	requestedSamples int
-	complete         chan struct{}
+	complete         chan archiveableDataBlock // carries the filled block to the goroutine that writes it
 	active           bool
 }
 
@@ -436,8 +436,11 @@ func (ds *AnySource) archiveNewDataBlock(block *dataBlock) {
 
 	requestFilled := ab.nSamp >= ab.requestedSamples
 	if requestFilled {
-		close(ab.complete)
+		// Hand a copy of the filled block to the goroutine that writes it to a file. That goroutine
+		// must not look at ds.archiveBlock itself: it belongs to this (the core loop's) goroutine,
+		// which clears the active flag here and may start filling the next request at any time.
 		ab.active = false
+		ab.complete <- *ab
 	}
 }
 
@@ -1108,12 +1111,10 @@ func (ds *AnySource) StopTriggerCoupling() error {
 	return ds.broker.StopTriggerCoupling()
 }
 
-func (ds *AnySource) writeNPZData(file *os.File) error {
+func (ds *AnySource) writeNPZData(file *os.File, ab *archiveableDataBlock, channelNames []string) error {
 	wz := npz.NewWriter(file)
 	defer wz.Close()
 
-	ab := ds.archiveBlock
-	channelNames := ds.ChannelNames()
 	firstFrame := make([]int64, len(ab.segments))
 	for i, stream := range ab.segments {
 		data := stream.rawData
@@ -1142,14 +1143,19 @@ func (ds *AnySource) ArchiveDataBlock(N int, file *os.File, finalName string) er
 	ds.archiveBlock.earliestTime = time.Now()
 	ds.archiveBlock.requestedSamples = N
 	ds.archiveBlock.segments = nil
-	ds.archiveBlock.complete = make(chan struct{})
+	ds.archiveBlock.externalTriggerRowcounts = nil
+	// Capacity 1: the core loop sends the filled block without waiting for the writer goroutine.
+	complete := make(chan archiveableDataBlock, 1)
+	ds.archiveBlock.complete = complete
 	ds.archiveBlock.active = true
+	channelNames := ds.ChannelNames()
 
-	// Launch this goroutine, which will execute when the ds.archiveBlock.complete channel is closed
+	// Launch this goroutine, which will execute when the filled block arrives on the complete channel.
+	// It uses only what it is given here and what it receives (never ds.archiveBlock).
 	go func() {
 		// When the archiveBlock is filled, write to npz file.
-		<-ds.archiveBlock.complete
-		if err := ds.writeNPZData(file); err != nil {
+		filled := <-complete
+		if err := ds.writeNPZData(file, &filled, channelNames); err != nil {
 			file.Close()
 		}
 
